@@ -480,6 +480,7 @@ class Evaluator:
         self.effects: List[Tuple[Term, ast.AST, Term]] = []  # (path condition, statement, rendered) for Expr statements
         self.inlined: List[str] = []
         self.lambdas: Dict[str, Tuple[ast.Lambda, Dict[str, Term], "Frame"]] = {}
+        self.inline_class_consts = False   # opt-in: read ``self.X`` as the class-level constant X of a plain class
 
     # -- typing -----------------------------------------------------------------------
     def set_type(self, t: Term, c: Optional[ClassInfo]):
@@ -952,6 +953,20 @@ class Evaluator:
         kind = {ast.ListComp: "list", ast.GeneratorExp: "gen", ast.SetComp: "set"}[type(e)]
         return ("comp", kind, elt, tuple(gens))
 
+    def _instance_assigned(self, c: ClassInfo, name: str) -> bool:
+        key = (c.name, name)
+        cache = self.__dict__.setdefault("_inst_assigned", {})
+        if key not in cache:
+            hit = False
+            for f in self.model.all_functions():
+                for n in ast.walk(f.node):
+                    if isinstance(n, (ast.Assign, ast.AnnAssign, ast.AugAssign)):
+                        for t in (n.targets if isinstance(n, ast.Assign) else [n.target]):
+                            if isinstance(t, ast.Attribute) and t.attr == name:
+                                hit = True
+            cache[key] = hit
+        return cache[key]
+
     def narrow(self, c: Term):
         """isinstance(x, T) taken as true narrows the static type of x to T (only ever to a subclass)."""
         parts = c[1] if c[0] == "and" else (c,)
@@ -1045,6 +1060,16 @@ class Evaluator:
                 if f is not None and f.default is not None and not c.is_property(name):
                     return self.expr(f.default, Frame(None, f.owner.module, {}, f.owner, fr.depth + 1))
         bc = self.type_of(base)
+        if self.inline_class_consts and bc is not None and not bc.is_property(name) and base[0] in ("sym",):
+            # a constant shared through the class (``X: T = <expr>`` in a class that is not a dataclass, never assigned on instances)
+            for k in bc.mro():
+                if name in k.class_attrs and name not in k.properties and not k.is_dataclass and not any(kk.is_dataclass for kk in bc.mro()):
+                    if not self._instance_assigned(bc, name):
+                        try:
+                            return self.expr(k.class_attrs[name], Frame(None, k.module, {}, k, fr.depth + 1))
+                        except Unsupported:
+                            break
+                    break
         if bc is not None and bc.is_property(name):
             p = bc.resolve(name)
             qn = p.qualname
